@@ -8,7 +8,7 @@ CONSTANTS
   Huge = Huge
   Tiny = Tiny
   Modes <- ModesST
-  SetKinds <- KindsVec
+  SetKinds <- KindsAll
   TupKinds <- TKindsAll
   N = 2
   MaxOps = 3
